@@ -91,7 +91,12 @@ def run_op(model, op, inputs, seed):
         return {k: np.asarray(v) for k, v in out.items()}
     if op == "simulate":
         with quiet():
-            res = model.simulate(algorithm="simulate", seed=seed, features=inputs["features"], visit_parameters=copy.deepcopy(inputs["visit_parameters"]))
+            res = model.simulate(algorithm="simulate", seed=seed, features=inputs["features"], visit_parameters=inputs["visit_parameters"])
+        return res.data.to_dataframe() if hasattr(res, "data") else res.to_dataframe()
+    if op == "simulate_table":
+        # a table-driven design with integer identifiers: the caller's own dictionary and table are passed, not copies
+        with quiet():
+            res = model.simulate(algorithm="simulate", seed=seed, features=inputs["features"], visit_parameters=inputs["table_design"])
         return res.data.to_dataframe() if hasattr(res, "data") else res.to_dataframe()
     settings = inputs["settings"][op]
     with quiet():
@@ -130,14 +135,17 @@ def make_inputs(n_ft, seed, n_src):
     return dict(df=df, data=Data.from_dataframe(df), ip=ip, timepoints={ids[0]: [66.0, 71.5, 80.0], ids[1]: [69.25]}, settings=settings,
                 features=[f"f{k}" for k in range(n_ft)],
                 visit_parameters=dict(patient_number=3, visit_type="random", first_visit_mean=0.0, first_visit_std=0.4, time_follow_up_mean=4, time_follow_up_std=1,
-                                      distance_visit_mean=1.0, distance_visit_std=0.2, min_spacing_between_visits=0.5))
+                                      distance_visit_mean=1.0, distance_visit_std=0.2, min_spacing_between_visits=0.5),
+                table_design=dict(visit_type="dataframe", df_visits=pd.DataFrame({"ID": [3, 3, 3, 12, 12, 7], "TIME": [61.0, 62.5, 64.0, 70.25, 71.0, 80.5]})))
 
 
 def inputs_fingerprint(inputs):
     return dict(df=inputs["df"].copy(deep=True), data_df=inputs["data"].to_dataframe().copy(deep=True),
                 ip=copy.deepcopy(inputs["ip"]._individual_parameters), timepoints=copy.deepcopy(inputs["timepoints"]),
                 settings={k: copy.deepcopy(s.parameters) for k, s in inputs["settings"].items()},
-                seeds={k: s.seed for k, s in inputs["settings"].items()}, visit=copy.deepcopy(inputs["visit_parameters"]))
+                seeds={k: s.seed for k, s in inputs["settings"].items()}, visit=copy.deepcopy(inputs["visit_parameters"]),
+                table=inputs["table_design"]["df_visits"].copy(deep=True), table_dtypes=list(map(str, inputs["table_design"]["df_visits"].dtypes)),
+                table_keys=sorted(inputs["table_design"]))
 
 
 def inputs_unchanged(fp, inputs, what, violations):
@@ -152,6 +160,9 @@ def inputs_unchanged(fp, inputs, what, violations):
             violations.append(dict(key=f"{what}: the AlgorithmSettings object passed in was modified ({k})"))
     if fp["visit"] != inputs["visit_parameters"]:
         violations.append(dict(key=f"{what}: the visit parameters passed in were modified"))
+    tb = inputs["table_design"]["df_visits"]
+    if fp["table_keys"] != sorted(inputs["table_design"]) or not fp["table"].equals(tb) or fp["table_dtypes"] != list(map(str, tb.dtypes)):
+        violations.append(dict(key=f"{what}: the visit table passed in was modified", dtypes_before=fp["table_dtypes"], dtypes_after=list(map(str, tb.dtypes))))
 
 
 def standin_histories(tier, seed):
@@ -164,9 +175,10 @@ def standin_histories(tier, seed):
             base = fit_model(kind, kw, n_ft, seed)
             inputs = make_inputs(n_ft, seed, n_src)
             ops = OPS if n_src else OPS[:-1]
+            extra_ops = ["simulate_table"] if n_src else []
             # reference: each operation on a freshly loaded model
             ref = {}
-            for op in ops:
+            for op in ops + extra_ops:
                 m = loaded_copy(base, tmp)
                 fp = inputs_fingerprint(inputs)
                 try:
@@ -175,7 +187,9 @@ def standin_histories(tier, seed):
                     ref[op] = f"{type(e).__name__}: {str(e)[:80]}"
                 evals += 1
                 inputs_unchanged(fp, inputs, op, violations)          # the very first use of the inputs is monitored too
-            histories = [(a,) for a in ops] + list(itertools.product(ops, ops))
+            histories = [(a,) for a in ops + extra_ops] + list(itertools.product(ops, ops))
+            if extra_ops:      # the table-driven design: alone, repeated (the same table re-used), before and after another call
+                histories += [("simulate_table", "simulate_table"), ("simulate_table", "estimate"), ("scipy_minimize", "simulate_table")]
             for origin in ("fitted", "loaded"):
                 for hist in histories:
                     model = fit_model(kind, kw, n_ft, seed) if origin == "fitted" else loaded_copy(base, tmp)
